@@ -851,13 +851,9 @@ Proof.
   - destruct ret as [t|]; [|destruct Hne as [Hne|Hne]; contradiction].
     cbn [app map snd parse_sig_tokens finish forallb]. reflexivity.
   - rewrite !map_app. cbn [ptoks_params]. rewrite map_app, snd_ptoks_param, snd_ptoks_params_false.
-    cbn [app]. destruct ret as [t|]; cbn [map snd app parse_sig_tokens].
-    + rewrite <- app_assoc. rewrite (params0_toks p ps []). cbn [finish]. rewrite Hv. reflexivity.
-    + assert (E : parse_sig_tokens (TLParen :: (toks_param p ++ toks_rest ps) ++ [TRParen])
-                  = let (ps', r') := params0 (toks_param p ++ toks_rest ps ++ [TRParen]) in
-                    match r' with TRParen :: r'' => finish None ps' r'' | _ => PErrSyntax end).
-      { rewrite <- app_assoc. reflexivity. }
-      rewrite E, (params0_toks p ps []). cbn [finish]. rewrite Hv. reflexivity.
+    destruct ret as [t|]; cbn [map snd app]; rewrite <- app_assoc; cbn [app];
+      unfold parse_sig_tokens; cbv beta iota; rewrite (params0_toks p ps []); cbn [finish];
+      rewrite Hv; reflexivity.
 Qed.
 
 (** ** Round trip *)
@@ -925,4 +921,19 @@ Proof.
   intros Hv; rewrite Hv in E1; cbn [andb] in E1. apply negb_false_iff in E1.
   destruct parsed as [s'| | | | |]; cbn [presult_eqb] in E1; try discriminate E1.
   apply sig_eqb_eq in E1; subst; reflexivity.
+Qed.
+
+Theorem print_lexes : forall s : signature,
+  valid_sig s = true -> lex (print_sig s) = LexOk (map snd (ptoks_sig s)).
+Proof. intros s H; rewrite print_sig_render; apply lex_render, lexable_sig, H. Qed.
+
+Theorem failing_slots_prop : forall (D : decls) (ps : list param) (args : list arg) (j : N),
+  In j (failing_slots D 0 ps args) <->
+  exists i p a, j = 0 + N.of_nat i /\ nth_error ps i = Some p /\ nth_error args i = Some a
+                /\ ~ slot_rule D p a.
+Proof.
+  intros D ps args j; rewrite failing_slots_spec; split;
+    intros (i & p & a & E & Hp & Ha & Hr); exists i, p, a; repeat split; try assumption.
+  - rewrite <- slot_rule_spec, Hr; discriminate.
+  - rewrite <- slot_rule_spec in Hr. destruct (slot_rule_b D p a); [exfalso; apply Hr|]; reflexivity.
 Qed.
